@@ -7,7 +7,7 @@ from .. import graphcases as GC
 from .. import scenario
 from . import c03
 
-TEMPLATES = ['se2fix', 'se3fix', 'r3fixlm', 'se2allfix', 'r2iso', 'se3far', 'se2far', 'mixed', 'r2', 'se3c']
+TEMPLATES = ['se2fix', 'se3fix', 'r3fixlm', 'se2allfix', 'r2iso', 'se3far', 'se2far', 'mixed', 'r2', 'se3c', 'se2shared', 'r3shared']
 
 
 def gen(tier, seed):
@@ -50,7 +50,7 @@ def check(run):
         modes[mode] = modes.get(mode, 0) + 1
         iso = [j for j, v in enumerate(c['verts']) if not any((j + 1) in e['vs'] for e in c['edges'])]
         key = dict(part='reduced-problem', mode=mode, isolated_fixed=bool(iso))
-        r = c03.step_compare(run, c, obs_list, key, warmup=False)
+        r = c03.step_compare(run, c, obs_list, key, warmup=(run.replayed % 2 == 0))
         run.count(key=repr(c), nontrivial=r is not None)
         if r is not None and run.replayed % 17 == 1:
             run.sample(dict(case=c, fixed_mode=mode, exact_step=[e.tolist() for e in r[1]]))
@@ -68,7 +68,9 @@ def check(run):
                    ('mixed', [setf(2, False), opt(2, False), opt(2, True)]),
                    ('se2far', [setf(4, True), opt(20, True, '1e-4')]), ('se3far', [opt(8, True), opt(20, False, '1e-1')]),
                    ('se2fix', [opt(20, True, '1e-4'), opt(1, False)]), ('r3fixlm', [opt(5, False, '1e-4')]), ('se2allfix', [opt(3, True), opt(2, False)]),
-                   ('r2iso', [opt(3, False, '1e-4'), opt(3, True)]), ('se3fix', [opt(5, False, '1e-4')])]
+                   ('r2iso', [opt(3, False, '1e-4'), opt(3, True)]), ('se3fix', [opt(5, False, '1e-4')]),
+                   ('se2shared', [opt(2, False), opt(3, True, '1e-4')]), ('r3shared', [opt(1, False), opt(2, False)]),
+                   ('r2lonely', [opt(3, True, '1e-4'), setf(4, True), opt(2, True)]), ('se3lonely', [opt(2, True), opt(3, True, '1e-4')])]
     events = []
     sessions = scenario.play(behaviours, run.seed, events, twin_every=1000)
     rejects = scenario.validate(run, events)
